@@ -85,43 +85,96 @@ def run(ctx, rep):
     rep.check(ok, 'Y2', 'parse-on-a-clone', 'parse::<DeriveInput>(item.clone())', 'the macro no longer parses a clone of its input as DeriveInput with a pass-through fallback', tsite)
     strip_calls = [c for c in t['calls'] if c.get('f') == 'strip_configuration_attribute']
     rep.check(len(strip_calls) == 1, 'Y2', 'strip-called-once', 'strip_configuration_attribute(&mut item)', 'strip_configuration_attribute is not applied exactly once to the parsed item', tsite)
-    # Y3 position coverage
-    s = [f for f in fns if f['name'] == 'strip_configuration_attribute'][0]
-    ssite = {'file': s['file'], 'line': s['line']}
-    ms = [m2 for m2 in s['matches'] if any(v.startswith('Data::') for a in m2['arms'] for v in a['variants'])]
-    if not ms:
-        raise core.Incomplete('strip_configuration_attribute: match over Data not found')
-    arms = {v.split('::')[1]: a for a in ms[0]['arms'] for v in a['variants'] if v.startswith('Data::')}
+    # Y3 position coverage, by provenance: in the inlined view of strip_configuration_attribute (every helper except the
+    # remover itself expanded) each call of the remover is classified by where its argument comes from; every
+    # helper-attribute position of syn::Data must be reached, over the complete member lists, unconditionally.
+    from .. import inline
+    s0 = [f for f in fns if f['name'] == 'strip_configuration_attribute'][0]
+    ssite = {'file': s0['file'], 'line': s0['line']}
+    helpers = tuple(f['name'] for f in fns if f['name'] not in ('remove_configuration_from_attributes', 'strip_configuration_attribute', 'typeshare'))
+    v = inline.view(ctx, s0, depth=4, force=helpers)
+    TRUNC = ('filter', 'skip', 'take', 'step_by', 'take_while', 'skip_while', 'nth', 'last', 'first', 'next', 'find', 'rev_take')
+
+    def source(x):
+        """(base value, adaptor chain) of an iterated collection: strips borrows and iter()/iter_mut()/into_iter()."""
+        chain = []
+        x = vt.unvar(x)
+        while isinstance(x, dict):
+            if x.get('k') in ('ref', 'paren', 'deref'):
+                x = vt.unvar(x.get('v'))
+            elif x.get('k') == 'call' and x.get('recv') is not None:
+                chain.append(x.get('f'))
+                x = vt.unvar(x['recv'])
+            else:
+                break
+        return x, chain
+
+    def fld(x):
+        """(base, field name) of a field access in either representation."""
+        x = vt.unvar(x)
+        if isinstance(x, dict) and x.get('k') == 'field':
+            return vt.unvar(x.get('base')), x.get('name')
+        if isinstance(x, dict) and x.get('k') == 'atom' and x.get('path'):
+            return dict(x, path=x['path'][:-1]), x['path'][-1]
+        if isinstance(x, dict) and x.get('k') == 'payload' and x.get('field'):
+            return {'k': 'payload', 'of': x.get('of'), 'variant': x.get('variant')}, x.get('field')
+        return None, None
+
+    def data_kind(x):
+        x = vt.unvar(x)
+        while isinstance(x, dict) and x.get('k') in ('ref', 'deref', 'paren'):
+            x = vt.unvar(x.get('v'))
+        if isinstance(x, dict) and x.get('k') == 'payload' and str(x.get('variant', '')).startswith('Data::'):
+            return str(x['variant']).split('::')[1].split('(')[0]
+        return None
+    reached = {}
+    for c in v['calls']:
+        if c.get('f') != 'remove_configuration_from_attributes' or not c.get('args'):
+            continue
+        conds = [fr for fr in c['guard'] if fr.get('k') == 'if']
+        # `if let Fields::Named(..) = fields` selects a field shape (accounted for below), it is not a condition on members
+        shape_sel = [x.split('::')[1].split('(')[0] for fr in conds if isinstance(vt.unvar(fr.get('c')), dict) and vt.unvar(fr['c']).get('k') == 'iflet' and not fr.get('neg') for x in vt.unvar(fr['c']).get('variants', []) if str(x).startswith('Fields::')]
+        conds = [fr for fr in conds if not (isinstance(vt.unvar(fr.get('c')), dict) and vt.unvar(fr['c']).get('k') == 'iflet' and not fr.get('neg') and any(str(x).startswith('Fields::') for x in vt.unvar(fr['c']).get('variants', [])))]
+        shape_sel += [x.split('::')[1].split('(')[0] for fr in c['guard'] if fr.get('k') == 'arm' for x in fr.get('variants', []) if str(x).startswith('Fields::')]
+        b, name = fld(vt.strip(c['args'][0]))
+        if name != 'attrs' or not isinstance(b, dict) or b.get('k') != 'elem':
+            continue
+        coll, chain = source(b.get('of'))
+        trunc = [t for t in chain if t in TRUNC]
+        cb, cname = fld(coll)
+        pos = None
+        shape = 'whole'
+        if cname in ('named', 'unnamed') and isinstance(cb, dict) and cb.get('k') == 'payload' and str(cb.get('variant', '')).startswith('Fields::'):
+            shape = str(cb['variant']).split('::')[1].split('(')[0]
+            cb, cname = fld(vt.unvar(cb.get('of')))
+        if cname == 'variants' and data_kind(cb) == 'Enum':
+            pos = 'enum:variant-attrs'
+        elif cname == 'fields' and data_kind(cb) == 'Struct':
+            pos = 'struct:fields'
+        elif cname == 'named' and fld(cb)[1] == 'fields' and data_kind(fld(cb)[0]) == 'Union':
+            pos = 'union:fields'
+        elif cname == 'fields' and isinstance(cb, dict) and cb.get('k') == 'elem':
+            vcoll, vchain = source(cb.get('of'))
+            vb, vname = fld(vcoll)
+            if vname == 'variants' and data_kind(vb) == 'Enum':
+                pos = 'enum:variant-fields'
+                trunc += [t for t in vchain if t in TRUNC]
+        if pos:
+            if shape == 'whole' and shape_sel:
+                shape = shape_sel[0]
+            reached.setdefault(pos, []).append({'cond': conds, 'trunc': trunc, 'shape': shape, 'line': c.get('line')})
+    msgs = {'enum:variant-attrs': 'helper attributes on enum variants are not stripped', 'enum:variant-fields': 'helper attributes on enum variant fields are not stripped',
+            'struct:fields': 'helper attributes on struct fields are not stripped', 'union:fields': 'helper attributes on union fields are not stripped'}
+    for pos, msg in msgs.items():
+        hits = reached.get(pos, [])
+        good = [h for h in hits if not h['cond'] and not h['trunc']]
+        why = msg if not hits else (f"{msg[:-17]} are only stripped under a condition / over a truncated list ({[vt.show(h['cond'][0]['c'])[:50] if h['cond'] else h['trunc'] for h in hits][:2]})")
+        rep.check(bool(good), 'Y3', pos, 'stripped for every member', why + ': a #[typeshare(..)] helper there survives into the macro output and rustc rejects the annotated program while the stripped twin compiles', ssite)
+    for pos in ('enum:variant-fields', 'struct:fields'):
+        shapes = {h['shape'] for h in reached.get(pos, []) if not h['cond'] and not h['trunc']}
+        ok = 'whole' in shapes or {'Named', 'Unnamed'} <= shapes
+        rep.check(ok, 'Y3', f'{pos}:named-and-unnamed', 'every field of every shape (named, tuple) visited', f"{pos}: only {sorted(shapes) or 'no'} field shapes are visited: a #[typeshare(..)] helper on a tuple-struct / tuple-variant field survives into the macro output", ssite)
+    ms = [m2 for m2 in v['matches'] if any(x.startswith('Data::') for a in m2['arms'] for x in a['variants'])]
+    kinds = {x.split('::')[1].split('(')[0] for m2 in ms for a in m2['arms'] for x in a['variants'] if x.startswith('Data::')}
     for kind in ('Enum', 'Struct', 'Union'):
-        rep.check(kind in arms, 'Y3', f'data:{kind}', 'handled', f'strip_configuration_attribute has no arm for Data::{kind}: helper attributes inside such items survive and rustc rejects them', ssite)
-    if 'Enum' in arms:
-        b = arms['Enum']['body']
-        rep.check(re.search(r'remove_configuration_from_attributes\s*\(\s*&\s*mut\s+variant\s*\.\s*attrs\s*\)', b) is not None, 'Y3', 'enum:variant-attrs', 'variant attributes stripped', 'helper attributes on enum variants are not stripped', ssite)
-        rep.check(re.search(r'remove_configuration_from_fields\s*\(\s*&\s*mut\s+variant\s*\.\s*fields\s*\)', b) is not None, 'Y3', 'enum:variant-fields', 'fields of every variant stripped', 'helper attributes on enum variant fields are not stripped', ssite)
-        rep.check('iter_mut' in b and not re.search(r'\.\s*(filter|skip|take|step_by)\s*\(', b), 'Y3', 'enum:all-variants', 'every variant visited', 'not every enum variant is visited', ssite)
-    if 'Struct' in arms:
-        rep.check(re.search(r'remove_configuration_from_fields\s*\(\s*&\s*mut\s+\w+\s*\.\s*fields\s*\)', arms['Struct']['body']) is not None, 'Y3', 'struct:fields', 'struct fields stripped', 'helper attributes on struct fields are not stripped', ssite)
-    if 'Union' in arms:
-        b = arms['Union']['body']
-        ok = re.search(r'remove_configuration_from_attributes\s*\(\s*&\s*mut\s+field\s*\.\s*attrs\s*\)', b) is not None or re.search(r'remove_configuration_from_(named_)?fields', b) is not None
-        rep.check(ok, 'Y3', 'union:fields', 'union fields stripped', 'helper attributes on union fields are not stripped', ssite)
-    rf = [f for f in fns if f['name'] == 'remove_configuration_from_fields']
-    if not rf:
-        raise core.Incomplete('remove_configuration_from_fields not found')
-    rf = rf[0]
-    fparam = rf['params'][0]
-    loops = [l for l in rf['loops'] if l.get('kind') == 'for']
-    whole = [l for l in loops if vt.show(l['over']).replace(' ', '') == f"{fparam['name']}.iter_mut()" and not [fr for fr in l['guard'][:-1] if fr.get('k') in ('if', 'arm')]]
-    shapes = set()
-    for m2 in rf['matches']:
-        for a in m2['arms']:
-            for v in a['variants']:
-                if v.startswith('Fields::') and not a.get('empty'):
-                    shapes.add(v.split('::')[1])
-    for fr in [fr for c in rf['calls'] for fr in c['guard'] if fr.get('k') == 'if' and isinstance(fr['c'], dict) and fr['c'].get('k') == 'iflet']:
-        for v in fr['c'].get('variants', []):
-            if v.startswith('Fields::'):
-                shapes.add(v.split('::')[1])
-    ok = (fparam.get('ty') == 'Fields' and bool(whole)) or {'Named', 'Unnamed'} <= shapes
-    strips = [c for c in rf['calls'] if c.get('f') == 'remove_configuration_from_attributes']
-    rep.check(ok and bool(strips) or ok and any(c.get('f', '').startswith('remove_configuration') for c in rf['calls']), 'Y3', 'fields:named-and-unnamed', 'every field of every shape (named, tuple) visited', f"remove_configuration_from_fields only descends into {sorted(shapes) or 'some'} fields: a #[typeshare(..)] helper on a tuple-struct / tuple-variant field survives into the macro output and rustc rejects the annotated program while the stripped twin compiles", {'file': rf['file'], 'line': rf['line']})
+        rep.check(kind in kinds, 'Y3', f'data:{kind}', 'handled', f'strip_configuration_attribute has no arm for Data::{kind}: helper attributes inside such items survive and rustc rejects them', ssite)
